@@ -380,9 +380,59 @@ let op_cert opidx impl toks =
    | Some [ "cert"; "1" ] -> spec opidx "C15_accept_only_if" r "certificate accepted without a matching name / NAIRealm / term"
    | _ -> ())
 
+(* ---- C08 / C20 ---- *)
+let rec cstr_ml (l : n list) = match l with [] -> [] | x :: r -> if int_of_n x = 0 then [] else x :: cstr_ml r
+
+let op_realm opidx impl toks =
+  match toks with
+  | name :: users ->
+      let nm = bytes_of_hex name in
+      let res = List.map (fun u ->
+          let id = cstr_ml (bytes_of_hex u) in
+          match realm_matches nm id with
+          | Some b -> b
+          | None -> (match rx (rxid (Printf.sprintf "rl:%d" opidx)) id with Some _ -> true | None -> false)) users in
+      pr "obs %d realm%s\n" opidx (String.concat "" (List.map (fun b -> if b then " 1" else " 0") res));
+      flush_misses opidx;
+      (match impl with
+       | Some ("realm" :: ians) when name_ok nm && List.length ians = List.length users ->
+           List.iter2 (fun u a ->
+               let id = cstr_ml (bytes_of_hex u) in
+               if not (List.exists (fun x -> int_of_n x = 0) (bytes_of_hex u)) then
+                 spec opidx "C08_plain" ((a = "1") = ends_with_at_name id nm) u) users ians
+       | _ -> ())
+  | _ -> ()
+
+let op_dynrealm opidx impl toks =
+  match toks with
+  | [ cmd; user ] ->
+      let id = bytes_of_hex user in
+      let command = bytes_of_hex cmd in
+      let cs = String.lowercase_ascii (string_of_bytes command) in
+      let starts p = String.length cs >= String.length p && String.sub cs 0 (String.length p) = p in
+      (match dynrealm id with
+       | None -> pr "obs %d dyn none\n" opidx
+       | Some r ->
+           pr "obs %d dyn %s realm=%s\n" opidx (hex_of_bytes r) (hex_of_bytes r);
+           if starts "srv:" then pr "obs %d query %s\n" opidx (hex_of_bytes (srv_query command r))
+           else if starts "naptr:" then pr "obs %d query %s\n" opidx (hex_of_bytes r)
+           else pr "obs %d argv 1:%s\n" opidx (if r = [] then "" else hex_of_bytes r));
+      (match impl with
+       | Some ("dyn" :: a :: _) when a <> "none" ->
+           let arg = bytes_of_hex a in
+           (* C20: only the clean, non-empty text after the last '@' of the User-Name (no NUL in it) *)
+           let raw = bytes_of_hex user in
+           let ok = arg <> [] && List.for_all realm_char_ok arg &&
+                    (match after_last_at raw None with Some t -> t = arg | None -> false) in
+           spec opidx "C20_sanitised" ok user
+       | _ -> ())
+  | _ -> ()
+
 let run (opidx : int) (impl : string list option) (toks : string list) : bool =
   match toks with
   | "choose" :: rest -> op_choose opidx impl rest; true
+  | "realm" :: rest -> op_realm opidx impl rest; true
+  | "dynrealm" :: rest -> op_dynrealm opidx impl rest; true
   | "cert" :: rest -> op_cert opidx impl rest; true
   | "logline" :: rest -> op_logline opidx impl rest; true
   | "frame" :: rest -> op_frame opidx impl rest; true
